@@ -321,7 +321,7 @@ func rootCell(v ssa.Value) ssa.Value {
 func receivesFrom(fn *ssa.Function, cell ssa.Value) bool {
 	for _, b := range fn.Blocks {
 		for _, ins := range b.Instrs {
-			if u, ok := ins.(*ssa.UnOp); ok && u.Op == token.ARROW && rootCell(u.X) == cell {
+			if u, ok := ins.(*ssa.UnOp); ok && u.Op == token.ARROW && sameChanCell(rootCell(u.X), cell) {
 				return true
 			}
 		}
@@ -341,12 +341,23 @@ func goDrains(x *ssa.Go, cell ssa.Value) bool {
 			return true
 		}
 		for i, a := range x.Call.Args {
-			if i < len(sc.Params) && (rootCell(a) == cell || canon(a) == canon(cell)) && receivesFrom(sc, sc.Params[i]) {
+			if i < len(sc.Params) && (sameChanCell(rootCell(a), cell) || canon(a) == canon(cell)) && receivesFrom(sc, sc.Params[i]) {
 				return true
 			}
 		}
 	}
 	return false
+}
+
+// sameChanCell: two channel cells denote the same channel — the same variable, or the same field of a stage object (the stage's
+// methods reach the channel through their own receiver; objects of one type are not told apart).
+func sameChanCell(a, b ssa.Value) bool {
+	if a == b {
+		return true
+	}
+	fa, ok1 := a.(*ssa.FieldAddr)
+	fb, ok2 := b.(*ssa.FieldAddr)
+	return ok1 && ok2 && fieldKey(fa.X.Type(), fa.Field) == fieldKey(fb.X.Type(), fb.Field)
 }
 
 // startsDrainer: calling fn starts a goroutine that keeps receiving from the channel cell (directly or through closures it calls).
@@ -427,7 +438,7 @@ var ruleF7 = &Rule{
 						// the channel is handed to a helper as an argument
 						if callee != nil && len(callee.Blocks) > 0 {
 							for i, a := range x.Common().Args {
-								if i < len(callee.Params) && (rootCell(a) == cell || canon(a) == canon(cell)) && startsDrainer(callee, callee.Params[i], 0) {
+								if i < len(callee.Params) && (sameChanCell(rootCell(a), cell) || canon(a) == canon(cell)) && startsDrainer(callee, callee.Params[i], 0) {
 									return true
 								}
 							}
